@@ -18,6 +18,13 @@ def content_map(snap):
 
 def wellformed(snap):
     out = []
+    if any(x in ("inf", "-inf", None) for x in snap["freq"] + snap["err2"]):
+        # overflow of a narrow float type (float16): only the structural facts can be checked
+        if snap["_freq_dtype"] != snap["dtype"] or snap["_err2_dtype"] != snap["dtype"]:
+            out.append(f"dtype_mismatch: dtype {snap['dtype']} over {snap['_freq_dtype']}/{snap['_err2_dtype']} arrays")
+        if any(x in ("-inf", None) for x in snap["err2"]):
+            out.append(f"negative_err2: {snap['err2']}")
+        return out
     if not snap["_shape_ok"]:
         out.append("shape: frequencies / errors2 / bins shapes do not match")
     if len(snap["freq"]) != len(snap["bins"]) or len(snap["err2"]) != len(snap["bins"]):
